@@ -534,8 +534,11 @@ class DataFrame:
             vals = npm._as_list(value)
         else:
             vals = [value] * len(self)
-        if not self._names and not self._index:
+        if not self._index and all(len(self._cols[n]) == 0 for n in self._names):
+            # assigning into a frame without rows: the frame takes the new column's index, other columns become missing
             self._index = list(value._index) if isinstance(value, Series) else _default_index(len(vals))
+            for n in self._names:
+                self._cols[n] = [None] * len(self._index)
         if len(vals) != len(self):
             raise ValueError(f"Length of values ({len(vals)}) does not match length of index ({len(self)})")
         if key not in self._cols:
